@@ -3,7 +3,7 @@ import random
 import time
 
 from .sched import S
-from .harness import EXCEPTION_KINDS, FALSY_VALUES, TRUTHY_VALUES
+from .harness import EXCEPTION_KINDS, FALSY_VALUES, TRUTHY_VALUES, LAZY_VALUES
 from .common import base_knobs, FL
 from .c03 import ARGS, KWARGS
 
@@ -28,7 +28,7 @@ def gen(seed, tier):
         elif outcome == "falsy":
             last = ["return", rng.choice(FALSY_VALUES)]
         elif outcome == "truthy":
-            last = ["return", rng.choice(TRUTHY_VALUES)]
+            last = ["return", rng.choice(TRUTHY_VALUES + LAZY_VALUES)]
         else:
             # (StopIteration only for thread payloads: raised inside a coroutine, Python itself turns it into a RuntimeError)
             last = ["raise", rng.choice(EXCEPTION_KINDS + (["StopIteration", "StopIteration"] if target == "threading" else []))]
